@@ -25,11 +25,16 @@ class PermutedPool:
     def __init__(self, seed):
         self.seed = seed
         self.order = None
+        self._running = True
 
     def __call__(self, poolsize):
+        # the class is "instantiated" once per pool the library creates: each such pool starts in the running state
+        self._running = True
         return self
 
     def map(self, func, iterable, chunksize=None):
+        if not self._running:
+            raise ValueError("Pool not running")     # what the stdlib pool says after close() / terminate()
         items = list(iterable)
         if not _stdlib_chunks(len(items), chunksize):
             return [None] * len(items)
@@ -48,6 +53,12 @@ class PermutedPool:
         return results
 
     def close(self):
+        self._running = False
+
+    def terminate(self):
+        self._running = False
+
+    def join(self):
         pass
 
 
@@ -64,12 +75,21 @@ class SeededInterleavingPool:
 
     def __call__(self, poolsize):
         self.poolsize = poolsize
+        self._running = True
         return self
 
     def close(self):
+        self._running = False
+
+    def terminate(self):
+        self._running = False
+
+    def join(self):
         pass
 
     def map(self, func, iterable, chunksize=None):
+        if not getattr(self, "_running", True):
+            raise ValueError("Pool not running")
         items = list(iterable)
         n = len(items)
         if n == 0:
